@@ -23,6 +23,7 @@ fn main() {
 		"c02" | "c12" | "c13" | "c16" => props::crash::main(&args[2..], args[1].as_str()),
 		"c04t" => props::c04t::main(&args[2..]),
 		"c10" => props::c10::main(&args[2..]),
+		"c14" => props::c14::main(&args[2..]),
 		"c06" => props::c06::main(&args[2..]),
 		"c20" => props::c20::main(&args[2..]),
 		"c09e" => props::c09e::main(&args[2..]),
